@@ -91,7 +91,9 @@ def main(tier, seed):
                ("names", "list_of_string"): "accept", ("names", "none"): "accept", ("names", "set_of_integer"): "refuse"}
     BEH_EXTRA = {"percent(50.0)": "ok", "percent(150.0)": "raise", "percent(-1.0)": "raise", "single_slot": "defined",
                  "ruled(3)": "lab1:ok,lab2:ok,unnamed_wr_0:ok", "ruled(11)": "lab1:ok,lab2:ok,unnamed_wr_0:raise",
-                 "ruled(5)": "lab1:ok,lab2:raise,unnamed_wr_0:ok", "ruled(-2)": "lab1:raise,lab2:ok,unnamed_wr_0:ok"}
+                 "ruled(5)": "lab1:ok,lab2:raise,unnamed_wr_0:ok", "ruled(-2)": "lab1:raise,lab2:ok,unnamed_wr_0:ok",
+                 "sel_user.f:=sup_r": "accept", "sel_user.f:=kw_user": "accept", "sel_user.g:=sup_r": "accept",
+                 "sel_user.g:=kw_user": "refuse", "sel_user.f:=integer": "refuse"}
     bexp = os.path.join(VERIF, "schemas", "py_beh.exp")
     bdirw = os.path.join(wroot, "beh")
     os.makedirs(bdirw)
